@@ -153,11 +153,12 @@ func (s *storeShim) UpdateData(sm *swap.SwapStateMachine) error {
 	f := n.op("store.update")
 	id := sm.SwapId.String()
 	if f != nil && f.Kind == "err" {
-		n.w.Observe(&Obs{Node: n.ID, Inc: n.inc, Kind: "store.write", Store: &StoreObs{SwapID: id, State: string(sm.Current), Prev: string(sm.Previous), Err: "injected before write", Phase: "before"}})
+		n.w.Observe(&Obs{Node: n.ID, Inc: n.inc, Kind: "store.write", Store: &StoreObs{SwapID: id, State: string(sm.Current), Prev: string(sm.Previous), Err: "injected before write", Phase: "before", Failed: true}})
 		return errors.New("bbolt: write failed (disk full)")
 	}
 	err := s.real.UpdateData(sm)
 	so := &StoreObs{SwapID: id, State: string(sm.Current), Prev: string(sm.Previous), Phase: "after"}
+	so.Failed = err != nil || (f != nil && f.Kind == "errafter")
 	if err != nil {
 		so.Err = err.Error()
 	} else {
